@@ -19,6 +19,7 @@ fn main() {
     if std::env::var("VERIF_VERBOSE_PANICS").is_err() {
         std::panic::set_hook(Box::new(|_| {}));
     }
+    vharness::tracelog::install_if_requested();
     let args: Vec<String> = std::env::args().skip(1).collect();
     if args.is_empty() {
         usage();
